@@ -18,17 +18,23 @@ fn matches(col: &[Vec<f64>], got: f64, g: &mut Sm64) -> (bool, serde_json::Value
     let ep = refstats::ess(&pcol, 0, DELTA);
     let mut best = f64::INFINITY;
     let mut ok = false;
+    // the comparison is made on tau = M*N/ESS = -1 + 2*sum(pair sums), where rounding errors are
+    // additive; ESS itself is hypersensitive when tau is close to zero (antithetic chains)
+    let mn = (2 * col.len() * (col[0].len() / 2)) as f64;
+    let tau_got = mn / got;
     for (e, epc) in [(&e0, &ep), (&e1, &ep)] {
         for (i, cand) in e.candidates.iter().enumerate() {
+            let tau_c = mn / cand;
             // sensitivity from the matching candidate of the perturbed evaluation, if it has one
-            let sens = epc.candidates.get(i).map(|p| (p - e0.candidates.get(i).cloned().unwrap_or(*p)).abs()).unwrap_or(0.0);
-            let tol = 4e-3 * cand.abs() + 100.0 * sens + 1e-3;
+            let sens = epc.candidates.get(i).map(|p| (mn / p - mn / e0.candidates.get(i).cloned().unwrap_or(*p)).abs()).unwrap_or(0.0);
+            let mass: f64 = e.pairs.iter().take(e.cut.unwrap_or(e.pairs.len())).map(|p| p.abs()).sum();
+            let tol = 2e-3 * (1.0 + 2.0 * mass) + 100.0 * sens;
             let err = if (cand.is_nan() && got.is_nan()) || (cand.is_infinite() && got == *cand) {
                 0.0
-            } else if cand.is_infinite() || !tol.is_finite() {
-                f64::INFINITY
+            } else if !tau_c.is_finite() || !tol.is_finite() {
+                if (tau_got == 0.0 && tau_c == 0.0) || got == *cand { 0.0 } else { f64::INFINITY }
             } else {
-                (got - cand).abs() / tol
+                (tau_got - tau_c).abs() / tol
             };
             if err < best {
                 best = err;
@@ -89,14 +95,14 @@ fn ess_case(ctx: &Ctx, rep: &mut Report, case: u64, g: &mut Sm64) {
                     return;
                 }
             }
-            Family::Ar1 if n / 2 >= 500 && gen.phis[j] > -0.5 && gen.phis[j] < 0.9 => {
+            Family::Ar1 if n / 2 >= 500 && mn >= 4000.0 && gen.phis[j] > -0.5 && gen.phis[j] < 0.9 => {
                 let phi = gen.phis[j];
                 let expect = mn * (1.0 - phi) / (1.0 + phi);
                 if expect >= 400.0 {
                     rep.count("band_ar1_checked");
                     let ratio = got / expect;
                     rep.max("band_ar1_max_abs_log_ratio", ratio.ln().abs());
-                    if !(0.5..=2.0).contains(&ratio) {
+                    if !(0.4..=2.5).contains(&ratio) {
                         rep.violation(&format!("{sig} ar1-band"), mon, case, json!({"c": c, "n": n, "phi": phi, "ess": got, "expected": expect}));
                         return;
                     }
@@ -177,7 +183,9 @@ fn metamorphic_case(ctx: &Ctx, rep: &mut Report, case: u64, g: &mut Sm64) {
                     let e_base = refstats::ess(&base_col, 0, DELTA);
                     if e.ambiguous == 0 && e_base.ambiguous == 0 {
                         let rel = if name == "x -> a x + b" { 2e-2 } else { 1e-2 };
-                        if !close(r[j] as f64, r0[j] as f64, rel, 1e-2) {
+                        let mnn = (2 * c * (n / 2)) as f64;
+                        let (ta, tb) = (mnn / r[j] as f64, mnn / r0[j] as f64);
+                        if !close(ta, tb, rel, 1e-2) {
                             rep.violation(&format!("{sig} not-invariant-under {name}"), mon, case,
                                 json!({"cfg": cj, "param": j, "before": fj(r0[j] as f64), "after": fj(r[j] as f64)}));
                             return;
